@@ -27,6 +27,7 @@ RUNS = {"quick": 480, "thorough": 12000}
 BUDGET = {"quick": 80, "thorough": 1500}
 CHUNK = {"quick": 5, "thorough": 10}
 RUN_TIMEOUT_S = 900
+ISOLATE = False  # runs keep long-lived helper interpreters; every execution starts from case-derived RNG pollution instead
 RULE = (
     "case = solver kind (evolutionary / hybrid) x connected target graph n = 2..5 x setting (n_pop 2-8, n_stop 2-8, "
     "n_hof 1-5, selection on/off, tournament_k 0-3, adaptive probabilities on/off) x compiler (stabilizer / density "
